@@ -428,10 +428,13 @@ def compare_area(ref, new, report_ok, report_bad, summ=None, full_ref=None, full
         if key not in ref:
             if key.startswith("const "):
                 continue  # a new table is visible at its uses
-            if "[" not in key.rsplit("::", 1)[0].rsplit(">", 1)[-1] and "]::" not in key:
+            ty = self_ty_of_key(key)
+            type_is_new = bool(ty) and not any(k2 != key and self_ty_of_key(k2) == ty for k2 in ref)
+            if ("[" not in key.rsplit("::", 1)[0].rsplit(">", 1)[-1] and "]::" not in key) or type_is_new:
                 # an inherent or free function nobody reviewed changes nothing by existing: if a reviewed function calls it, that
                 # caller's normal form shows the call and differs.  (A new method in a trait impl is different: it can override a
-                # default method or be entered implicitly - Drop - without any caller changing, so that stays an alarm.)
+                # default method or be entered implicitly - Drop - without any caller changing, so that stays an alarm; unless the
+                # type itself is new: nothing that was reviewed can hold a value of it.)
                 report_ok(key, "new function; not part of the reviewed behaviour unless a reviewed function calls it (then that caller differs)")
                 continue
             report_bad(key, "function-new", "function is not in the reviewed reference")
